@@ -11,7 +11,7 @@
 //! per-protocol subsequences are the enqueued chunks (timestamps non-decreasing).
 //! A case (Coq type `case` of C20/Run.v) is one direction of one run: the
 //! recorded bytes (timestamps zeroed), what each agent enqueued and received.
-use std::sync::Arc;
+use std::sync::{Arc, Mutex};
 use std::time::{Duration, Instant};
 
 use pallas_network::multiplexer as mux;
@@ -39,9 +39,13 @@ struct AgentPlan {
     b_recv_delay_ms: u64,
 }
 
+#[derive(Clone, Copy)]
+enum Ev { Frag(usize), Deq(u16, usize) } // Deq(listen id, index into that agent's received list)
+type Log = Arc<Mutex<Vec<Ev>>>;
+
 struct AgentOut { received: Vec<Vec<u8>>, extra: usize, send_err: Option<String>, lost: bool }
 
-async fn agent_task(mut ch: mux::AgentChannel, sends: Vec<Vec<u8>>, yields: Vec<u8>, expect: usize, recv_delay_ms: u64, barrier: Arc<Barrier>) -> AgentOut {
+async fn agent_task(mut ch: mux::AgentChannel, sends: Vec<Vec<u8>>, yields: Vec<u8>, expect: usize, recv_delay_ms: u64, barrier: Arc<Barrier>, log: Log, listen_id: u16) -> AgentOut {
     let recv_from = Instant::now() + Duration::from_millis(recv_delay_ms);
     let mut received: Vec<Vec<u8>> = Vec::new();
     let mut next = 0usize;
@@ -68,7 +72,7 @@ async fn agent_task(mut ch: mux::AgentChannel, sends: Vec<Vec<u8>>, yields: Vec<
             let r = if next >= sends.len() || send_err.is_some() { tokio::time::timeout(Duration::from_millis(20), ch.dequeue_chunk()).await.ok() }
                     else { futures::FutureExt::now_or_never(ch.dequeue_chunk()) };
             match r {
-                Some(Ok(c)) => { received.push(c); progressed = true; if received.len() > expect + 8 { break; } }
+                Some(Ok(c)) => { received.push(c); log.lock().unwrap().push(Ev::Deq(listen_id, received.len() - 1)); progressed = true; if received.len() > expect + 8 { break; } }
                 Some(Err(_)) => { lost = true; break; }
                 None => break,
             }
@@ -81,12 +85,12 @@ async fn agent_task(mut ch: mux::AgentChannel, sends: Vec<Vec<u8>>, yields: Vec<
     // everybody done (or given up): nothing more may arrive
     barrier.wait().await;
     let mut extra = 0usize;
-    while let Ok(Ok(c)) = tokio::time::timeout(Duration::from_millis(60), ch.dequeue_chunk()).await { received.push(c); extra += 1; if extra > 8 { break; } }
+    while let Ok(Ok(c)) = tokio::time::timeout(Duration::from_millis(60), ch.dequeue_chunk()).await { received.push(c); log.lock().unwrap().push(Ev::Deq(listen_id, received.len() - 1)); extra += 1; if extra > 8 { break; } }
     AgentOut { received, extra, send_err, lost }
 }
 
 /// copies src -> dst in random-sized pieces, recording everything
-async fn forward(mut src: tokio::net::unix::OwnedReadHalf, mut dst: tokio::net::unix::OwnedWriteHalf, mut rng: Rng) -> Vec<u8> {
+async fn forward(mut src: tokio::net::unix::OwnedReadHalf, mut dst: tokio::net::unix::OwnedWriteHalf, mut rng: Rng, log: Log) -> Vec<u8> {
     let mut rec = Vec::new();
     let mut buf = vec![0u8; 70000];
     loop {
@@ -95,6 +99,7 @@ async fn forward(mut src: tokio::net::unix::OwnedReadHalf, mut dst: tokio::net::
             Ok(0) | Err(_) => break,
             Ok(n) => {
                 rec.extend_from_slice(&buf[..n]);
+                log.lock().unwrap().push(Ev::Frag(n)); // logged before the bytes can reach the receiving plexer
                 if dst.write_all(&buf[..n]).await.is_err() { break; }
                 if rng.chance(1, 6) { tokio::task::yield_now().await; }
             }
@@ -103,7 +108,7 @@ async fn forward(mut src: tokio::net::unix::OwnedReadHalf, mut dst: tokio::net::
     rec
 }
 
-struct RunOut { a: Vec<AgentOut>, b: Vec<AgentOut>, a2b: Vec<u8>, b2a: Vec<u8> }
+struct RunOut { a: Vec<AgentOut>, b: Vec<AgentOut>, a2b: Vec<u8>, b2a: Vec<u8>, ev_a2b: Vec<Ev>, ev_b2a: Vec<Ev> }
 
 fn run(rt: &Runtime, plans: &[AgentPlan], seed: u64) -> Result<RunOut, String> {
     let plans = plans.to_vec();
@@ -121,14 +126,16 @@ fn run(rt: &Runtime, plans: &[AgentPlan], seed: u64) -> Result<RunOut, String> {
         let (ra, rb) = (pa.spawn(), pb.spawn());
         let (a2r, a2w) = a2.into_split();
         let (b2r, b2w) = b2.into_split();
-        let f_ab = tokio::spawn(forward(a2r, b2w, Rng::new(seed ^ 0xA)));
-        let f_ba = tokio::spawn(forward(b2r, a2w, Rng::new(seed ^ 0xB)));
+        let log_ab: Log = Arc::new(Mutex::new(Vec::new()));
+        let log_ba: Log = Arc::new(Mutex::new(Vec::new()));
+        let f_ab = tokio::spawn(forward(a2r, b2w, Rng::new(seed ^ 0xA), log_ab.clone()));
+        let f_ba = tokio::spawn(forward(b2r, a2w, Rng::new(seed ^ 0xB), log_ba.clone()));
         let barrier = Arc::new(Barrier::new(plans.len() * 2));
         let mut ha = Vec::new();
         let mut hb = Vec::new();
         for (p, (ca, cb)) in plans.iter().zip(chans_a.into_iter().zip(chans_b.into_iter())) {
-            ha.push(tokio::spawn(agent_task(ca, p.a_sends.clone(), p.a_yields.clone(), p.b_sends.len(), p.a_recv_delay_ms, barrier.clone())));
-            hb.push(tokio::spawn(agent_task(cb, p.b_sends.clone(), p.b_yields.clone(), p.a_sends.len(), p.b_recv_delay_ms, barrier.clone())));
+            ha.push(tokio::spawn(agent_task(ca, p.a_sends.clone(), p.a_yields.clone(), p.b_sends.len(), p.a_recv_delay_ms, barrier.clone(), log_ba.clone(), if p.a_is_client { p.proto ^ 0x8000 } else { p.proto })));
+            hb.push(tokio::spawn(agent_task(cb, p.b_sends.clone(), p.b_yields.clone(), p.a_sends.len(), p.b_recv_delay_ms, barrier.clone(), log_ab.clone(), if p.a_is_client { p.proto } else { p.proto ^ 0x8000 })));
         }
         let mut a = Vec::new();
         let mut b = Vec::new();
@@ -139,7 +146,9 @@ fn run(rt: &Runtime, plans: &[AgentPlan], seed: u64) -> Result<RunOut, String> {
         rb.abort().await;
         let a2b = tokio::time::timeout(Duration::from_secs(20), f_ab).await.map_err(|_| "forwarder did not finish".to_string())?.map_err(|e| format!("{e}"))?;
         let b2a = tokio::time::timeout(Duration::from_secs(20), f_ba).await.map_err(|_| "forwarder did not finish".to_string())?.map_err(|e| format!("{e}"))?;
-        Ok(RunOut { a, b, a2b, b2a })
+        let ev_a2b = log_ab.lock().unwrap().clone();
+        let ev_b2a = log_ba.lock().unwrap().clone();
+        Ok(RunOut { a, b, a2b, b2a, ev_a2b, ev_b2a })
     })
 }
 
@@ -231,6 +240,7 @@ fn main() {
     let protos: [u16; 12] = [0, 2, 3, 4, 5, 6, 7, 8, 9, 10, 0x7fff, 0x1234];
     let mut total_chunks = 0u64;
     let mut total_bytes = 0u64;
+    let mut sched_skipped = 0u64;
     for run_idx in 0..args.n {
         // every 4th run is "big" (many / maximal chunks): oracle only; the others also go through the model
         let big = run_idx % 4 == 3;
@@ -332,6 +342,18 @@ fn main() {
                 let tag = format!("{}agents{}", if plans.len() == 1 { "trivial-single-agent:" } else { "" }, plans.len());
                 let per = |v: &Vec<&Vec<Vec<u8>>>| coq_list(&(0..ids.len()).collect::<Vec<_>>(), |i| format!("({},{})", ids[*i], coq_list(v[*i], |c| cb(c))));
                 emit_case(&tag, &format!("(CPlex {} {} {})", cb(&masked), per(&sent), per(&recvd)));
+                // the same run as a schedule of the transition system
+                let evs = if a_to_b { &out.ev_a2b } else { &out.ev_b2a };
+                if let Ok(segs) = parse_wire(rec) {
+                    if evs.len() <= 4000 {
+                        let ev_terms = coq_list(evs, |e| match e {
+                            Ev::Frag(n) => format!("EFrag {}", n),
+                            Ev::Deq(id, k) => { let i = ids.iter().position(|x| x == id).unwrap(); format!("EDeq {} {}", id, cb(&recvd[i][*k])) }
+                        });
+                        emit_case(&format!("schedule-replay:{}", tag), &format!("(CSched {} {} {} {})", coq_list(&ids, |i| i.to_string()),
+                            coq_list(&segs, |(_, p, pl)| format!("({},{})", p, cb(pl))), ev_terms, per(&recvd)));
+                    } else { sched_skipped += 1; }
+                }
             }
         }
     }
@@ -358,6 +380,7 @@ fn main() {
                       coq_list(&back, |(p, pl)| format!("({},{})", p, cb(pl)))));
         }
     }
+    emit_stat("schedule_replays_skipped_too_long", sched_skipped);
     emit_stat("chunks_oracle", total_chunks);
     emit_stat("payload_bytes", total_bytes);
 }
